@@ -152,9 +152,8 @@ func (h *Header) Validate() error {
 	if h.H == 0 {
 		return fmt.Errorf("%w: zero height", ErrInvalid)
 	}
-	if h.Chain == "" {
-		return fmt.Errorf("%w: empty chain id", ErrInvalid)
-	}
+	// an empty chain id is NOT a Validate failure of this type: whether a header of no chain may pass is for the
+	// library's own chain-id checks to decide (Verify, the Exchange's validateChainID)
 	return nil
 }
 
